@@ -17,6 +17,7 @@ PROP = 'C18'
 POPS = {
     'none': (),
     'plain1': (('A', 'G1', 'L1', 'plain'),),
+    'two-matrices': (('M1', 'G3', 'L2', 'matrix', 0, 1, 2), ('N', 'G1', 'L1', 'plain'), ('O2', 'G3', 'L2', 'matrix', 0, 1, 2)),
     'plain2': (('B b', 'G1', 'L1', 'plain'), ('A', 'G1', 'L2', 'plain')),
     'zone3': (('Z', 'G2', 'L2', 'multizone', 3),),
     'zone1+plain': (('Z', 'G2', 'L2', 'multizone', 1), ('A', 'G1', 'L1', 'plain')),
@@ -271,7 +272,58 @@ def name_pool(n_witnesses):
     return [n for n in dict.fromkeys(pool) if n]
 
 
+def web_capture_worker(args):
+    """The web Capture button (WebApp.snapshot) writes the script to a file; captures of different populations, one
+    after the other into the same directory: after each, the file holds exactly the script of that capture."""
+    import os
+    import tempfile
+    import shutil
+    res = report.WorkResult('web capture, repeated')
+    world.start_function_trace()
+    res.sites.add('web-capture')
+    from checks.c20 import install_flask_stub
+    install_flask_stub()
+    import web.web_app as web_app_mod
+    tmp = tempfile.mkdtemp(prefix='c18-')
+    saved = symx.Ctx.cur
+    symx.Ctx.cur = None
+    world.uninstall_real_mode()
+    try:
+        order = [POPS['mixed'], POPS['plain1'], POPS['zone3'], POPS['none'], POPS['matrix2x2'], POPS['plain2']]
+        for specs in order:
+            res.nontrivial += 1
+            net = world.configure(specs, extra_settings={'script_path': tmp, 'manifest_file_name': None})
+            for i, d in enumerate(net.devices):
+                d.color = [1000 + i, 2000 + i, 3000 + i, 2500 + i]
+                d.power = 65535 if i % 2 else 0
+                d.zones = [[10 + z, 20 + z, 30 + z, 3000] for z in range(len(d.zones))]
+                d.cells = [[100 + z, 200 + z, 300 + z, 3500] for z in range(len(d.cells))]
+            app = web_app_mod.WebApp()
+            try:
+                app.snapshot()
+            except Exception as ex:
+                res.violation('web-capture|raises', 'WebApp.snapshot() raises %s: %s' % (type(ex).__name__, ex), inputs={'specs': specs}, replayed=True)
+                continue
+            res.reached.add('web-capture')
+            want = snapshot_mod.ScriptSnapshot().generate(None).text
+            got = open(os.path.join(tmp, '__snapshot__.ls')).read()
+            if got != want:
+                res.violation('web-capture|file differs', 'after a capture the file holds %d characters, the captured script has %d; the file ends with %r'
+                              % (len(got), len(want), got[-60:]), inputs={'specs': specs}, replayed=True)
+            p = Parser()
+            if not p.parse(got):
+                res.violation('web-capture|does not compile', 'the captured file does not compile: %s' % p.get_errors().strip(), inputs={'specs': specs}, replayed=True)
+    finally:
+        shutil.rmtree(tmp, ignore_errors=True)
+        world.install_real_mode()
+        symx.Ctx.cur = saved
+    res.functions = world.functions_seen()
+    return res
+
+
 def dispatch(args):
+    if 'web' in args:
+        return web_capture_worker(args)
     return names_worker(args) if 'names' in args else worker(args)
 
 
@@ -284,6 +336,7 @@ def run(tier, seed):
     names = name_pool(2 if tier == 'quick' else 12)
     for i in range(0, len(names), 40):
         items.append({'names': names[i:i + 40], 'label': str(i // 40)})
+    items.append({'web': True})
     results, skipped = report.run_pool(dispatch, items, budget_s=common.tier_budget(tier, 60, 900))
     return report.finish(
         PROP, tier, seed, 'exploration', results, skipped,
